@@ -164,13 +164,32 @@ def scenario(versions: list[dict[str, str]], store_flags: list[str], n_workers: 
                 rng.shuffle(subsets)
                 for sset in subsets[:60]:
                     plans.append({"kind": "fail", "role": role, "set": sset})
+        if fail_mode == "singles":
+            # the cheapest multi-fault class that single faults cannot reach: one data write plus one meta/meta_ex
+            # write of ANOTHER record failing in the same run (new meta next to an old data file, and vice versa)
+            for role, lst in sorted(by_role.items()):
+                datas = [e for e in lst if e["op"] == "write" and e["rec"] == "data"]
+                metas = [e for e in lst if e["op"] == "write" and e["rec"] in ("meta", "meta_ex")]
+                pairs = [(a, b) for a in datas for b in metas if (a["name"] or "").split(".")[0] != (b["name"] or "").split(".")[0]]
+                rng.shuffle(pairs)
+                for a, b in pairs[:8]:
+                    plans.append({"kind": "fail", "role": role, "set": sorted([a["n"], b["n"]]), "pair": "data+" + b["rec"]})
         if len(plans) > max_points:
-            keep_kills = [p for p in plans if p["kind"] == "kill"]
-            fails = [p for p in plans if p["kind"] == "fail"]
-            rng.shuffle(keep_kills)
-            rng.shuffle(fails)
-            kk = keep_kills[: max(1, int(max_points * 0.75))]
-            plans = kk + fails[: max_points - len(kk)]
+            # stratified: first and last instance of every (role, kind, op, record kind, when) class, then random fill
+            def cls(p: dict[str, Any]) -> tuple[Any, ...]:
+                return (p["role"], p["kind"], p.get("op"), p.get("rec"), p.get("when"), p.get("pair"), len(p.get("set", [])))
+            by_cls: dict[tuple[Any, ...], list[dict[str, Any]]] = {}
+            for p_ in plans:
+                by_cls.setdefault(cls(p_), []).append(p_)
+            chosen: list[dict[str, Any]] = []
+            for k_ in sorted(by_cls, key=str):
+                lst2 = by_cls[k_]
+                chosen.append(lst2[0])
+                if len(lst2) > 1:
+                    chosen.append(lst2[-1])
+            rest = [p_ for p_ in plans if p_ not in chosen]
+            rng.shuffle(rest)
+            plans = (chosen + rest)[:max(max_points, len(chosen))] if len(chosen) <= max_points * 2 else chosen[: max_points * 2]
         res["n_plans"] = len(plans)
         # --- execute ------------------------------------------------------------------------------------
         for plan in plans:
